@@ -496,6 +496,15 @@ def method(eng, recv, meth, args, kw, n, st):
                     return z3.EmptySet(ty.elem.sort())
                 if isinstance(o, V) and isinstance(o.ty, TSet) and o.ty.elem == ty.elem:
                     return o.t
+                if isinstance(o, V) and isinstance(o.ty, TOpt):
+                    eng.require(st, "safe.none", n, o.ty.sort().is_some(o.t), "TypeError")
+                    o = V(o.ty.t, o.ty.sort().v(o.t))
+                if isinstance(o, V) and isinstance(o.ty, TObj):
+                    hook = eng.reg.lookup_method(o.ty.name, "__as_set__")      # an opaque iterable: the set of the things it iterates over
+                    if hook is not None:
+                        r = hook(eng, [o], {}, n, st)
+                        if isinstance(r, V) and isinstance(r.ty, TSet) and r.ty.elem == ty.elem:
+                            return r.t
                 raise OutOfSubset(n, f"set.{meth}({o!r})")
 
             if meth == "union":
